@@ -12,17 +12,21 @@ Definition plain_mirror : config :=
 (* Python: internal 0xFA and external 0xFFFFA are the same cell when no ROM is mapped *)
 Theorem C11_py_spaces_alias_refuted : py_rt plain 1048826 = py_rt plain 1048570.
 Proof. vm_compute. reflexivity. Qed.
+Print Assumptions C11_py_spaces_alias_refuted.
 
 (* Python: every address at or above 0x100100 is folded into the internal block *)
 Theorem C11_py_high_addresses_alias_internal : py_rt plain 1048832 = py_rt plain 1048576.
 Proof. vm_compute. reflexivity. Qed.
+Print Assumptions C11_py_high_addresses_alias_internal.
 
 (* Rust: a 24-bit store at internal 0xFE does not fit the internal block and lands in external 0xFE..0x100 *)
 Theorem C11_rs_cross_boundary_refuted :
   rs_run plain [] [MStore 1048830 24 1193046; MLoad 1048830 8; MLoad 254 16] = [0; 0; 13398].
 Proof. vm_compute. reflexivity. Qed.
+Print Assumptions C11_rs_cross_boundary_refuted.
 
 (* Rust: a 16-bit store at 0x87FFF with the mirror on puts its second byte at 0xC0000, not at the mirrored 0xB8000 *)
 Theorem C11_rs_mirror_multibyte_refuted :
   rs_run plain_mirror [] [MStore 557055 16 4660; MLoad 753664 8; MLoad 786432 8; MLoad 557056 8] = [0; 0; 18; 0].
 Proof. vm_compute. reflexivity. Qed.
+Print Assumptions C11_rs_mirror_multibyte_refuted.
